@@ -94,18 +94,18 @@ theorem snd_inj_of_nodup (tbl : List (String × String)) (hn : (tbl.map (·.2)).
 
 /-! ### keywords -/
 
-/-- a token typed "ID" or with a keyword type was produced by the identifier rule -/
+/-- a token typed "ID" or with a keyword type was produced by the identifier rule `t_ID` -/
 theorem rule_is_id {text : List Char} {t : Token} (h : RuleInfo text t) (hty : t.type ∈ "ID" :: kwTypes) :
-    t.type = ruleType "ID" t.value := by
-  obtain ⟨_, s, r, ⟨pre, post, _, hr, _⟩, ht⟩ := h
+    ∃ ap, t.type = ruleFn ap "ID" t.value := by
+  obtain ⟨_, s, r, ap, ⟨pre, post, _, hr, _⟩, ht⟩ := h
   by_cases hid : r = "ID"
-  · rw [ht, hid]
+  · exact ⟨ap, by rw [ht, hid]⟩
   · exfalso
     have hmem : r ∈ allRules := by
       unfold allRules
       cases s <;> simp [hr]
     have := List.all_eq_true.mp rule_names_not_kw r hmem
-    have hty' : ruleType r t.value = r := by simp [ruleType, hid]
+    have hty' : ruleFn ap r t.value = r := by simp [ruleFn, ruleType, hid]
     rw [ht, hty'] at hty
     simp [hid] at this
     simp at hty
@@ -113,13 +113,12 @@ theorem rule_is_id {text : List Char} {t : Token} (h : RuleInfo text t) (hty : t
     · exact hid h1
     · exact this h1
 
-theorem id_keyword_iff_aux {text : List Char} {t : Token} (h : RuleInfo text t) (hty : t.type ∈ "ID" :: kwTypes)
-    (sp K : String) (hk : (sp, K) ∈ LexData.keywords) : t.type = K ↔ String.ofList t.value = sp := by
-  have ht := rule_is_id h hty
+/-- the dictionary look-up of `t_ID`: it yields the keyword type `K` iff the lexeme is exactly `K`'s spelling -/
+theorem lookup_keyword_iff (v : List Char) (sp K : String) (hk : (sp, K) ∈ LexData.keywords) :
+    ruleType "ID" v = K ↔ String.ofList v = sp := by
   have hKmem : K ∈ kwTypes := List.mem_map_of_mem (f := (·.2)) hk
   constructor
-  · intro hK
-    rw [hK] at ht
+  · intro ht
     simp only [ruleType, if_true] at ht
     split at ht
     · rename_i kw hkw
@@ -128,9 +127,37 @@ theorem id_keyword_iff_aux {text : List Char} {t : Token} (h : RuleInfo text t) 
       exact snd_inj_of_nodup _ kw_types_nodup _ _ _ this hk
     · subst ht; exact absurd hKmem id_not_kw
   · intro hv
-    rw [ht]
     simp only [ruleType, if_true]
     rw [hv, lookup_of_mem _ kw_keys_nodup _ _ hk]
+
+/-- `t_ID` with the look-behind flag `ap` (`cur_token_real` is a PERIOD): the token gets the keyword type `K` iff
+    the lexeme is exactly `K`'s spelling AND the previous significant token is not `.` -/
+theorem ruleFn_keyword_iff (ap : Bool) (v : List Char) (sp K : String) (hk : (sp, K) ∈ LexData.keywords) :
+    ruleFn ap "ID" v = K ↔ (String.ofList v = sp ∧ ap = false) := by
+  have hKmem : K ∈ kwTypes := List.mem_map_of_mem (f := (·.2)) hk
+  have hKne : K ≠ "ID" := fun h => id_not_kw (h ▸ hKmem)
+  unfold ruleFn
+  constructor
+  · intro h
+    split at h
+    · exact absurd h.symm hKne
+    · rename_i hc
+      refine ⟨(lookup_keyword_iff v sp K hk).mp h, ?_⟩
+      cases ap with
+      | false => rfl
+      | true => exact absurd ⟨rfl, by rw [h]; exact hKne, rfl⟩ hc
+  · intro ⟨hv, hap⟩
+    have := (lookup_keyword_iff v sp K hk).mpr hv
+    subst hap
+    simp [this]
+
+/-- keyword exactness ("only on exact match"): a token with the keyword type `K` has exactly `K`'s spelling -/
+theorem keyword_type_exact {text : List Char} {t : Token} (h : RuleInfo text t) (sp K : String)
+    (hk : (sp, K) ∈ LexData.keywords) (hty : t.type = K) : String.ofList t.value = sp := by
+  have hmem : t.type ∈ "ID" :: kwTypes := by
+    rw [hty]; exact List.mem_cons_of_mem _ (List.mem_map_of_mem (f := (·.2)) hk)
+  obtain ⟨ap, hap⟩ := rule_is_id h hmem
+  exact ((ruleFn_keyword_iff ap t.value sp K hk).mp (hap ▸ hty)).1
 
 /-! ### punctuators -/
 
@@ -181,23 +208,12 @@ theorem spell_punct (P sp : String) (h : (P, sp) ∈ LexData.punctSpelling) : sp
 theorem rule_is_punct {text : List Char} {t : Token} (h : RuleInfo text t) (P sp : String)
     (hp : (P, sp) ∈ LexData.punctSpelling) (hty : t.type = P) :
     FirstMatch (rulesOf .initial) (text.drop t.lexpos) P t.value.length := by
-  obtain ⟨_, s, r, hfm, ht⟩ := h
+  obtain ⟨_, s, r, ap, hfm, ht⟩ := h
   have hnk := List.all_eq_true.mp punct_not_kw (P, sp) hp
   have hnc := List.all_eq_true.mp punct_names_ok (P, sp) hp
   have hr : r = P := by
-    unfold ruleType at ht
-    split at ht
-    · split at ht
-      · rename_i kw hkw
-        exfalso
-        have : P ∈ kwTypes := by rw [← hty, ht]; exact lookup_mem _ _ _ hkw
-        simp at hnk
-        exact hnk.2 this
-      · exfalso
-        rw [hty] at ht
-        simp at hnk
-        exact hnk.1 ht
-    · rw [← ht, hty]
+    simp at hnk
+    exact ruleFn_eq ap r _ P hnk.1 hnk.2 (ht ▸ hty)
   subst hr
   cases s with
   | initial => exact hfm
